@@ -449,6 +449,7 @@ func limFamily() []Pat {
 	for _, s := range []string{`a*bcd`, `[ab]*cde`, `\w+@`, `.*abc`, `\s*abc`, `[^,]*,abc`, `\d*-\d`, `a+?bcd`, `(?:a|b)*cde`, `(a*)bcd`, `[a-c]*?cab`,
 		`a?b?c?d?e?f?g?h?i?j`, `a{2,5}b{0,3}`, `(?:ab|cde){2,3}`, `a{0,3}b{2}`, `(?:a{2}){2,3}`, `(?:ab?){3}c`, `(?:a|bc){3}d`,
 		`[a-z]+(?:\s+at\s+|\s*@\s*)[a-z]*(?:\s+dot\s+|\.)[a-z]+`, `(\w+)(\s+at\s+)(\w+)(\s+dot\s+)(\w+)`, `[a-z]+\s+at\s+[a-z]+\s+dot\s+[a-z]+`, `[a-z]*?(?:\s*@\s*)[a-z]*(?:\.|dot)[a-z]+`,
+		`[a-z]+\d*@\w+\.com`, `\w+\s*=\s*\d+;`, `[a-z]+-?:\d+/`, `[ab]+c*(?:x|y)[ab]*(?:z)[ab]+`, `[a-z]+\d?(?:-|_)[a-z]*(?:\.)[a-z]+`,
 		`[xy]*(abc|b)(c)(d)`, `[xy]*(?:abcdef|b)cde`, `[xy]*(?:ab|b)(c)d`, `[xy]*(b|abc)(c)(d)`, `[xy]+(?:abc|b)(?:c|cc)(d)`, `\w*?(?:-ab|-)(b)(c)`,
 		`[ab]+(?: x | y)[ab]*(?:z |w)[ab]+`, `\w+\s+in\s+\w+\s+of\s+\w+`,
 		`\bfoo\b`, `foo\b.`, `^abc$`, `abc$`, `\Aabc\z`, `(?m)^abc$`, `(?m)abc$\n?d`} {
